@@ -3,6 +3,7 @@
 package canon
 
 import (
+	"math/big"
 	"fmt"
 	"reflect"
 	"sort"
@@ -30,6 +31,10 @@ func walk(v reflect.Value, path string, out *[]string, seen map[uintptr]bool) {
 	switch v.Kind() {
 	case reflect.Pointer:
 		if v.IsNil() {
+			return
+		}
+		if b, ok := v.Interface().(*big.Int); ok {
+			*out = append(*out, fmt.Sprintf("%s = %s", path, b.String()))
 			return
 		}
 		if v.Elem().Kind() == reflect.Struct {
@@ -210,6 +215,136 @@ func ids(v reflect.Value, out map[string]string, seen map[uintptr]bool, keep fun
 	case reflect.Slice, reflect.Array:
 		for i := 0; i < v.Len(); i++ {
 			ids(v.Index(i), out, seen, keep)
+		}
+	}
+}
+
+// Slot is one leaf of a schema model that a mutation sweep can change.
+type Slot struct {
+	Path   string // canonical path of the leaf
+	Class  string // "<struct type>.<field>" (structural class for findings)
+	Mutate func() // changes the leaf to another value (fresh allocation for pointer leaves)
+}
+
+// Slots enumerates, in a deterministic order, the attribute / text leaves of a
+// model reachable through exported fields that take part in XML serialisation
+// (fields tagged xml:"-" and xml.Name are skipped). v must be a pointer.
+func Slots(v any) []Slot {
+	var out []Slot
+	slots(reflect.ValueOf(v), "", "", &out, map[uintptr]bool{})
+	return out
+}
+
+var bigIntType = reflect.TypeOf(big.Int{})
+
+func slots(v reflect.Value, path, class string, out *[]Slot, seen map[uintptr]bool) {
+	if !v.IsValid() {
+		return
+	}
+	switch v.Kind() {
+	case reflect.Pointer:
+		et := v.Type().Elem()
+		if et == bigIntType {
+			if v.CanSet() {
+				vv := v
+				*out = append(*out, Slot{path, class, func() { vv.Set(reflect.ValueOf(big.NewInt(7))) }})
+			}
+			return
+		}
+		switch et.Kind() {
+		case reflect.Bool:
+			if v.CanSet() {
+				vv := v
+				*out = append(*out, Slot{path, class, func() {
+					nv := reflect.New(et)
+					nv.Elem().SetBool(vv.IsNil() || !vv.Elem().Bool())
+					vv.Set(nv)
+				}})
+			}
+			return
+		case reflect.String:
+			if v.CanSet() {
+				vv := v
+				*out = append(*out, Slot{path, class, func() {
+					nv := reflect.New(et)
+					if vv.IsNil() {
+						nv.Elem().SetString("m")
+					} else {
+						nv.Elem().SetString(vv.Elem().String() + "_m")
+					}
+					vv.Set(nv)
+				}})
+			}
+			return
+		case reflect.Int, reflect.Int8, reflect.Int16, reflect.Int32, reflect.Int64:
+			if v.CanSet() {
+				vv := v
+				*out = append(*out, Slot{path, class, func() {
+					nv := reflect.New(et)
+					if vv.IsNil() {
+						nv.Elem().SetInt(7)
+					} else {
+						nv.Elem().SetInt(vv.Elem().Int() + 7)
+					}
+					vv.Set(nv)
+				}})
+			}
+			return
+		}
+		if v.IsNil() {
+			return
+		}
+		if v.Elem().Kind() == reflect.Struct {
+			p := v.Pointer()
+			if seen[p] {
+				return
+			}
+			seen[p] = true
+		}
+		slots(v.Elem(), path, class, out, seen)
+	case reflect.Interface:
+		if !v.IsNil() && v.Elem().Kind() == reflect.Pointer {
+			slots(v.Elem(), path, class, out, seen)
+		}
+	case reflect.Struct:
+		t := v.Type()
+		if t.PkgPath() == "encoding/xml" {
+			return
+		}
+		for i := 0; i < v.NumField(); i++ {
+			f := t.Field(i)
+			if !f.IsExported() {
+				continue
+			}
+			if tag, ok := f.Tag.Lookup("xml"); ok && (tag == "-" || strings.HasPrefix(tag, "-,")) {
+				continue
+			}
+			slots(v.Field(i), path+"/"+f.Name, t.Name()+"."+f.Name, out, seen)
+		}
+	case reflect.Slice, reflect.Array:
+		for i := 0; i < v.Len(); i++ {
+			slots(v.Index(i), fmt.Sprintf("%s[%d]", path, i), class, out, seen)
+		}
+	case reflect.Bool:
+		if v.CanSet() {
+			vv := v
+			*out = append(*out, Slot{path, class, func() { vv.SetBool(!vv.Bool()) }})
+		}
+	case reflect.String:
+		if v.CanSet() {
+			vv := v
+			*out = append(*out, Slot{path, class, func() {
+				if vv.String() == "" {
+					vv.SetString("m")
+				} else {
+					vv.SetString(vv.String() + "_m")
+				}
+			}})
+		}
+	case reflect.Int, reflect.Int8, reflect.Int16, reflect.Int32, reflect.Int64:
+		if v.CanSet() {
+			vv := v
+			*out = append(*out, Slot{path, class, func() { vv.SetInt(vv.Int() + 7) }})
 		}
 	}
 }
